@@ -86,7 +86,24 @@ def run(tier, mode):
             n_or += 1
             if isinstance(d2, H.Exn):
                 continue
-            if d2.current_layout in ('TRS_desc', 'S_desc_TR'):
+            if d2.current_layout in ('TRS_desc', 'S_desc_TR') and 'segment' in rc_cfg:
+                # under `segment` every segment is parsed as a description of its own (its layout re-deduced), so the unit that falls
+                # back is the segment: cut the segments here, independently, from the Twp/Rge matches of the preprocessed text
+                from pytrs.parser.plssdesc.plss_parse import cleanup_desc as _cd, deduce_layout as _dl
+                ppd = d2.pp_desc
+                tms = list(twprge_regex.finditer(ppd))
+                if d2.current_layout == 'TRS_desc':
+                    segs = [ppd[m.start():(tms[j + 1].start() if j + 1 < len(tms) else len(ppd))] for j, m in enumerate(tms)]
+                else:
+                    segs = [ppd[(tms[j - 1].end() if j else 0):m.end()] for j, m in enumerate(tms)]
+                segs = [_cd(x) for x in segs]
+                if tms and all(_dl(x) in ('TRS_desc', 'S_desc_TR', 'copy_all') for x in segs):
+                    dist['fallback_rejected_segments'] = dist.get('fallback_rejected_segments', 0) + 1
+                    if [x.desc for x in d2.tracts] != [_cd(x) for x in segs]:
+                        fail('fallback_rejected_sections_segmented', {'text': t, 'config': rc_cfg}, [(x.trs, x.desc) for x in d2.tracts][:3], [('*', x) for x in segs][:3])
+                    else:
+                        nontriv.add(('rejected_seg', t))
+            elif d2.current_layout in ('TRS_desc', 'S_desc_TR'):
                 dist['fallback_rejected'] += 1
                 trimmed = d2.pp_desc != pytrs.parser.plssdesc.plss_parse.cleanup_desc(d2.pp_desc)
                 if len(d2.tracts) != 1 or d2.tracts[0].desc != d2.pp_desc:
